@@ -34,6 +34,13 @@ Example c11_ex :
   let r1 := mkrule [true;true;false] NoCompression [] in let r2 := mkrule [true;false] NoCompression [] in
   match_schc_packet [r1; r2] [true;false;true;true] = Ok r2 /\ match_schc_packet [r1; r2] [true] = Exc RuleIDMatchError.
 Proof. vm_compute. split; reflexivity. Qed.
+(* the dispatch does not look at the nature: a fragmentation rule whose id leads the packet is returned (c11_dispatch covers
+   it), and ContextManager.decompress then strips the id and decodes its (normally absent) descriptors *)
+Example c11_fragmentation_ex :
+  let r1 := mkrule [true;true;false] Fragmentation [] in let r2 := mkrule [true;false] NoCompression [] in
+  match_schc_packet [r1; r2] [true;true;false;true] = Ok r1 /\
+  cm_decompress (fun _ => None) [r1; r2] [true;true;false;true;false] (Some Up) = Ok [true;false].
+Proof. vm_compute. split; reflexivity. Qed.
 
 (* rule-id dispatch on byte-level Buffers (Ruler.match_schc_packet with Buffer slices and ==) *)
 Theorem c11_found_bytes rules r s rest : bprefix_free rules -> Forall canon_rule rules ->
